@@ -259,9 +259,10 @@ impl MultiChainTracker {
     }
 
     pub fn stats<B: Backend>(&self, sample: Tensor<B, 3>) -> Result<RunStats, Box<dyn Error>> {
-        let sample_data = sample.to_data();
+        // Convert (do not reinterpret) the tensor data: the backend may be f64.
+        let sample_data = sample.to_data().convert::<f32>();
         let sample_ndarray =
-            ArrayView3::from_shape(sample.dims(), sample_data.as_slice().unwrap())?;
+            ArrayView3::from_shape(sample.dims(), sample_data.as_slice::<f32>().unwrap())?;
         Ok(RunStats::from_f32_view(sample_ndarray))
     }
 
